@@ -486,3 +486,29 @@ Proof.
     exfalso. exact (ly_of_doc_not_nmr v _ H).
   - destruct (format_gate_refuses v s G) as [E1 [E2 E3]]. rewrite E1, E2, E3. repeat split; auto.
 Qed.
+
+(* ---------------------------------------------------------------- the property, assembled *)
+Lemma glob_clause_fixed : glob_clause true.
+Proof.
+  intros g V p. destruct (glob_correct g V) as [r [_ H]]. destruct (H p) as [_ E].
+  exists (spec_match g p). split; [exact E|]. apply spec_match_iff. exact V.
+Qed.
+
+Lemma lookup_clause_fixed : lookup_clause fixed.
+Proof. intros d path V. apply ll_license_rule. exact V. Qed.
+
+Lemma agree_clause_fixed : agree_clause fixed.
+Proof.
+  intros d c E path. split; [apply find_files_agree; exact E|].
+  split; [apply find_license_for_file_agree; exact E|].
+  intro n. apply find_license_by_name_agree. exact E.
+Qed.
+
+Lemma gate_clause_any v : gate_clause v.
+Proof. intro s. apply not_machine_readable_iff. Qed.
+
+Theorem C17_all : C17_full fixed.
+Proof.
+  split; [exact glob_clause_fixed|]. split; [exact lookup_clause_fixed|].
+  split; [exact agree_clause_fixed|]. split; [exact (wf_doc_accepted fixed)|exact (gate_clause_any fixed)].
+Qed.
